@@ -2275,6 +2275,16 @@ class Interp:
             if a == NONE:
                 return neg(IsNone(b))
             return neg(Cmp('is', a, b))
+        if isinstance(op, (ast.In, ast.NotIn)) and isinstance(b, Opaque) and b.label == 'range' \
+                and len(b.args) in (1, 2) and all(isinstance(x, Sym) for x in b.args) and \
+                isinstance(num_of(a), Sym):
+            # an integer-valued term in range(lo, hi)  <=>  lo <= term < hi
+            v = num_of(a)
+            if is_intvalued(v):
+                lo = b.args[0] if len(b.args) == 2 else Sym.const(0)
+                hi = b.args[-1]
+                c = AndC((norm_cmp('>=', v, lo), norm_cmp('<', v, hi)))
+                return c if isinstance(op, ast.In) else neg(c)
         if isinstance(op, ast.In):
             return In(a, b)
         if isinstance(op, ast.NotIn):
